@@ -17,7 +17,9 @@ COQ = VERIF / "coq"
 REPO = Path(os.environ.get("VERIF_REPO", "/repo"))
 SRC = REPO / "src"
 OUT = VERIF / "out"
-EVID = VERIF / "evidence"
+# evidence describes runs against /repo itself; a run against a scratch copy (VERIF_REPO, used to try seeded changes)
+# writes its evidence under out/ instead
+EVID = VERIF / "evidence" if REPO == Path("/repo") else VERIF / "out" / "evidence_scratch"
 PY = "/venv/bin/python"
 QFLAGS = ["-Q", "gen", "Gen", "-Q", "model", "Model", "-Q", "proofs", "Proofs", "-Q", "props", "Props"]
 FORBIDDEN = re.compile(r"\b(Admitted|admit|Axiom|Parameter|Conjecture|Unset\s+Guard|bypass_check|type-in-type|impredicative-set|Admit\s+Obligations)\b")
@@ -375,7 +377,7 @@ class Ctx:
         return 1 if viol else 0
 
     def write_evidence(self, nviol):
-        EVID.mkdir(exist_ok=True)
+        EVID.mkdir(parents=True, exist_ok=True)
         cov = dict(self.cov)
         cov["known_findings_seen"] = [f["id"] for f in self.known_seen]
         cov["notes"] = self.info[-20:]
